@@ -224,6 +224,8 @@ def extract_sweep(view, loop):
             return sympy.nsimplify(n["v"]) if k == "Int" else sympy.nsimplify(n.get("text") or n["v"], rational=True)
         if k == "Ref":
             if n.get("dk") == "local" and n["d"] in env:
+                if isinstance(env[n["d"]], tuple) and env[n["d"]][:1] == ("poison",):
+                    raise NotRecognised("value of %s: %s" % (render(n), env[n["d"]][1]))
                 return env[n["d"]]
             v = view.value(n)
             if v is not n and v.get("k") != "Ref":
@@ -396,7 +398,7 @@ def extract_sweep(view, loop):
                 continue
             if not assign_stmt(st, inner=True):
                 raise NotRecognised("statement %s in the inner loop" % render(st))
-        changed = [d for d in env if d != "out_i" and (d not in before or before[d] != env[d])]
+        changed = [d for d in env if d != "out_i" and (d not in before or before[d] is not env[d] and before[d] != env[d])]
         if "out_i" in env and env.get("out_i") is not before.get("out_i"):
             raise NotRecognised("write to out[i] inside the inner loop")
         if len(changed) != 1:
@@ -433,10 +435,15 @@ def extract_sweep(view, loop):
         if k == "Decl":
             for v in st.get("vars", []):
                 # never-written locals are resolved lazily at their uses (through their initialiser)
-                if v.get("init") is not None and view.writes.get(v["d"]):
-                    if any(w.get("k") == "Un" for w in view.writes[v["d"]]):
+                if v.get("init") is not None:
+                    if any(w.get("k") == "Un" for w in view.writes.get(v["d"], [])):
                         continue        # an index stepped by an inner loop
-                    env[v["d"]] = conv(v["init"])
+                    try:
+                        env[v["d"]] = conv(v["init"])
+                    except NotRecognised as ex:
+                        if view.writes.get(v["d"]):
+                            raise
+                        env[v["d"]] = ("poison", str(ex))   # may still serve as an index (resolved structurally)
             continue
         if k == "For":
             if sw.inner is not None:
